@@ -212,7 +212,9 @@ func judgeNum(r *explore.Rec, key string, desc func() any, res numResult, operan
 		return
 	}
 	whole := p.IsInt()
-	if (whole && new(big.Rat).Abs(p).Cmp(big.NewRat(1e15, 1)) < 0 || res.isInt) && !wholeRe.MatchString(o.Out) {
+	// an integer quotient that no int64 holds can only be handed on as a float: like every float from 1e15 on it may be spelled with an exponent
+	fitsInt64 := new(big.Rat).Abs(p).Cmp(new(big.Rat).SetFloat64(9223372036854775808)) < 0
+	if (whole && new(big.Rat).Abs(p).Cmp(big.NewRat(1e15, 1)) < 0 || res.isInt && fitsInt64) && !wholeRe.MatchString(o.Out) {
 		r.Violation("whole-number-format:"+key, desc(), "digits only (whole-number result)", o.String())
 		return
 	}
@@ -485,6 +487,10 @@ func c17Families(tier string) []explore.Family {
 		s := strconv.FormatInt(v, 10)
 		mags = append(mags, numVal{"i" + s, int(v), rat(v, 1), "int", s})
 	}
+	// whole-valued floats at and beyond the edge of int64 (what a chained product yields): 2^63, 2^64, -2^63, 2^63+2^11, 1e19 - all exact float64 values
+	for _, f := range []float64{9223372036854775808, 18446744073709551616, -9223372036854775808, 9223372036854777856, 1e19, -18446744073709551616} {
+		mags = append(mags, numVal{"f" + strconv.FormatFloat(f, 'f', 0, 64), f, new(big.Rat).SetFloat64(f), "float", ""})
+	}
 	smallOps := []numVal{{"u3", uint(3), rat(3, 1), "int", ""}, {"u64_7", uint64(7), rat(7, 1), "int", ""}, {"u8_3", uint8(3), rat(3, 1), "int", ""}, {"i8_m3", int8(-3), rat(-3, 1), "int", ""}, {"i64_3", int64(3), rat(3, 1), "int", ""}, {"u16_1", uint16(1), rat(1, 1), "int", ""},
 		{"1", 1, rat(1, 1), "int", "1"}, {"-1", -1, rat(-1, 1), "int", "-1"}, {"2", 2, rat(2, 1), "int", "2"}, {"0.5", 0.5, rat(1, 2), "float", "0.5"}, {"3", 3, rat(3, 1), "int", "3"}, {"7.0", 7.0, rat(7, 1), "float", ""}}
 	M := len(mags)
@@ -520,6 +526,35 @@ func c17Families(tier string) []explore.Family {
 		}
 		if o.Panic != nil || o.Err != nil || o.Out != want+"|"+neg {
 			r.Violation("wrong-value:scaled:"+u, map[string]any{"a": a.name, "filter": u}, want+"|"+neg, o.String())
+		}
+	}})
+	// whole-valued floats no int64 holds, as a chained product yields them (2^62 | times: 2 ...): the unary filters leave them
+	// alone (abs drops the sign), dividing by 1 and adding 0 too, modulo gives the exact remainder; the output may be
+	// spelled with an exponent, so it is read back as a number
+	beyond := []float64{9223372036854775808, 18446744073709551616, -9223372036854775808, -18446744073709551616, 9223372036854777856, 1e19, 1.5e300}
+	bForms := []struct {
+		f    string
+		want func(x float64) float64
+	}{{"ceil", func(x float64) float64 { return x }}, {"floor", func(x float64) float64 { return x }}, {"round", func(x float64) float64 { return x }}, {"abs", math.Abs},
+		{"divided_by: 1", func(x float64) float64 { return x }}, {"divided_by: 1.0", func(x float64) float64 { return x }}, {"plus: 0", func(x float64) float64 { return x }}, {"times: 1", func(x float64) float64 { return x }},
+		{"modulo: 7", func(x float64) float64 { return math.Mod(x, 7) }}, {"modulo: 1024", func(x float64) float64 { return 0 }}, {"divided_by: 2", func(x float64) float64 { return x / 2 }}, {"divided_by: one", func(x float64) float64 { return x }}}
+	fams = append(fams, explore.Family{Name: "whole-floats-beyond-int64", Count: int64(len(beyond) * len(bForms) * 2), Run: func(i int64, r *explore.Rec) {
+		rx := radix{i}
+		chained, form, x := rx.next(2) == 1, bForms[rx.next(len(bForms))], beyond[rx.next(len(beyond))]
+		src, bind := "{{ a | "+form.f+" }}", map[string]any{"a": x, "one": int64(1)}
+		if chained {
+			// the same number made in the template: half of it (exact) times 2
+			src, bind = "{{ h | times: 2 | "+form.f+" }}", map[string]any{"h": x / 2, "one": int64(1)}
+		}
+		r.Eval()
+		r.Transition()
+		o := Render(c17.eng, src, bind)
+		want := form.want(x)
+		got, perr := strconv.ParseFloat(strings.TrimSpace(o.Out), 64)
+		r.State("beyond-int64:" + form.f)
+		r.Class("beyond-int64/" + o.Class())
+		if o.Panic != nil || o.Err != nil || perr != nil || got != want {
+			r.Violation("wrong-value:beyond-int64:"+strings.SplitN(form.f, ":", 2)[0], map[string]any{"template": src, "a": strconv.FormatFloat(x, 'f', 0, 64)}, strconv.FormatFloat(want, 'g', -1, 64), o.String())
 		}
 	}})
 	chainLens := []int{4, 5, 7, 8, 9, 15, 16, 17, 31, 32, 33, 64, 100, 128, 129}
